@@ -4,7 +4,7 @@
    in-place modification cannot be expressed by a pure function and are decided by the correspondence check alone. *)
 From Coq Require Import List Bool Arith Permutation.
 Import ListNotations.
-From KV Require Import Base.Layout Base.LayoutFacts Batch.Pure.
+From KV Require Import Base.Layout Base.LayoutFacts Batch.Pure Batch.IterStop Batch.IterStopFacts Gen.IterLoops.
 
 Theorem C20_batch_is_stack : forall (A B : Type) (f : A -> B) xs i d d', i < length xs ->
   nth i (map f xs) d' = f (nth i xs d) /\ length (map f xs) = length xs.
@@ -43,3 +43,37 @@ Print Assumptions C20_rows_independent.
 Theorem C20_bad_layout_rejected : forall (A B : Type) (g : list A -> list B) bs l, Nat.modulo (length l) bs <> 0 -> blockwise bs g l = None.
 Proof. intros. now apply blockwise_rejects_bad_length. Qed.
 Print Assumptions C20_bad_layout_rejected.
+
+(* ---- iterative decoders: the stopping discipline of the message-passing loop (Batch/IterStop.v) ---- *)
+
+(* rows leave the loop one by one through an index set (polar BP with early_stop): batch = stack of members decoded alone,
+   for every per-row state, step, answer and criterion, every batch and every iteration budget *)
+Theorem C20_index_set_stop_pure : forall (S O : Type) (step : S -> S) (out : S -> O) (stop : S -> bool) n d ss,
+  batch_decode S O step out stop n d ss = map (single_decode S O step out stop n d) ss.
+Proof. exact index_set_stop_pure. Qed.
+Print Assumptions C20_index_set_stop_pure.
+
+Theorem C20_index_set_stop_member : forall (S O : Type) (step : S -> S) (out : S -> O) (stop : S -> bool) n d ss i s0, i < length ss ->
+  nth i (batch_decode S O step out stop n d ss) d = single_decode S O step out stop n d (nth i ss s0).
+Proof. exact index_set_stop_member. Qed.
+Print Assumptions C20_index_set_stop_member.
+
+(* a loop that always runs its passes (LDPC BP / min-sum): every member gets exactly the configured number of steps *)
+Theorem C20_fixed_count_pure : forall (S O : Type) (step : S -> S) (out : S -> O) n d ss,
+  batch_decode S O step out (fun _ => false) (Datatypes.S n) d ss = map (fun s => out (iter (Datatypes.S n) step s)) ss.
+Proof. exact fixed_count_pure. Qed.
+Print Assumptions C20_fixed_count_pure.
+
+(* the loops of the published decoders, as the translator reads them from the source on this run *)
+Theorem C20_published_loops_pure : pure_discipline ldpc_bp_loop /\ pure_discipline polar_bp_loop.
+Proof. exact (conj (every_discipline_pure _) (every_discipline_pure _)). Qed.
+Print Assumptions C20_published_loops_pure.
+
+(* stopping on a whole-batch criterion is NOT pure although every batch of one is answered correctly (the shape of the
+   seeded change C20_f): the translator refuses such a loop *)
+Theorem C20_whole_batch_stop_refuted :
+  exists (step : nat -> nat) (out : nat -> nat) (stop : nat -> bool) (n : nat) (d : nat) (ss : list nat),
+    global_decode nat nat step out stop n d ss <> map (single_decode nat nat step out stop n d) ss
+    /\ forall s, In s ss -> global_decode nat nat step out stop n d [s] = [single_decode nat nat step out stop n d s].
+Proof. exact whole_batch_stop_refuted. Qed.
+Print Assumptions C20_whole_batch_stop_refuted.
